@@ -109,6 +109,20 @@ func (c *specCtx) tr(e ast.Expr) (tv, error) {
 	case *ast.Ident:
 		return c.ident(x.Name)
 	case *ast.UnaryExpr:
+		if id, ok := x.X.(*ast.Ident); ok && x.Op == token.AND {
+			// &v: the address of a local that lives in memory
+			fr := c.fr
+			for _, b := range fr.fn.Blocks {
+				for _, ins := range b.Instrs {
+					if a, ok := ins.(*ssa.Alloc); ok && a.Comment == id.Name {
+						if _, defined := fr.vals[a]; defined {
+							return tv{fr.vals[a], a.Type()}, nil
+						}
+					}
+				}
+			}
+			return tv{}, fmt.Errorf("&%s: no such memory-resident local here", id.Name)
+		}
 		a, err := c.tr(x.X)
 		if err != nil {
 			return tv{}, err
@@ -653,6 +667,12 @@ func (c *specCtx) binary(x *ast.BinaryExpr) (tv, error) {
 			return tv{Term{fmt.Sprintf("(godiv %s %s)", a.S, b.S), SInt}, ty}, nil
 		case token.REM:
 			return tv{Term{fmt.Sprintf("(gorem %s %s)", a.S, b.S), SInt}, ty}, nil
+		case token.AND:
+			return tv{Term{fmt.Sprintf("(int_and %s %s)", a.S, b.S), SInt}, ty}, nil
+		case token.OR:
+			return tv{Term{fmt.Sprintf("(int_or %s %s)", a.S, b.S), SInt}, ty}, nil
+		case token.AND_NOT:
+			return tv{Term{fmt.Sprintf("(int_andnot %s %s)", a.S, b.S), SInt}, ty}, nil
 		}
 	}
 	if a.Sort == SV && b.Sort == SV && x.Op == token.ADD {
@@ -991,6 +1011,13 @@ func (c *specCtx) callExpr(x *ast.CallExpr) (tv, error) {
 			return tv{}, err
 		}
 		return tv{Term{fmt.Sprintf("(ipay_V %s)", a.S), SV}, nil}, nil
+	case "as_int":
+		// as_int(x): the integer held by interface value x
+		a, err := c.tr(args[0])
+		if err != nil {
+			return tv{}, err
+		}
+		return tv{Term{fmt.Sprintf("(ipay_I %s)", a.S), SInt}, types.Typ[types.Int]}, nil
 	case "as_bytes":
 		// as_bytes(x): the []byte held by interface value x
 		a, err := c.tr(args[0])
